@@ -514,6 +514,22 @@ def run(idx, rep, tier):
                                 f"{fname}({', '.join(a.cls for a in tup)}) selects {r_short.role} but {fname}({', '.join(a.cls for a in ext)}) selects {r_full.role}: "
                                 "omitting the optional argument silently bypasses the structural rule",
                                 detail=f"{r_short.role}!={r_full.role}", locs=[r_short.loc, r_full.loc])
+    # ---- a slice never materialises its parent: the exact diagonal / trace estimators (and row extraction) take n-by-b slices of
+    # identities and of structured operators precisely to stay below n^2
+    if idx.has_cls("Sliced"):
+        sl = idx.cls("Sliced")
+        n_bad = 0
+        for m in sl.methods.values():
+            for c in df.calls(m.node):
+                f = c.func
+                dense_of_parent = (isinstance(f, ast.Attribute) and f.attr in ("to_dense", "todense") and ast.unparse(f.value).replace(" ", "") in ("self.A", )) or \
+                    (isinstance(f, (ast.Name, ast.Attribute)) and ast.unparse(f).endswith("densify") and c.args and ast.unparse(c.args[0]).replace(" ", "") == "self.A")
+                if dense_of_parent:
+                    n_bad += 1
+                    rep.refuted("matrix-free-product", f"Sliced.{m.name}:parent", f"`{ast.unparse(c)}` materialises the whole parent operator to read a slice of it: every n-by-b identity / operator "
+                                "chunk taken by the exact diagonal estimator and every small sub-block then costs n^2 memory", detail="densifies-parent", locs=[idx.loc(m.module, c)])
+        if not n_bad:
+            rep.proved("matrix-free-product", "Sliced:parent", "no method of Sliced densifies the parent operator", locs=[idx.loc(sl.module, sl.node)])
     rep.floor("matrix-free-product", 18)
     rep.floor("structural-rule", 60)
     rep.floor("default-arity", 100)
